@@ -110,6 +110,12 @@ func genVecQueries(t *rapid.T, s *gen.Schema, want *spec.Obs, nDocs int, n int) 
 				q.Eligible = append(q.Eligible, live[len(live)/4:]...)
 			}
 		}
+		if q.Filter && len(q.Eligible) > 1 && gen.Chance(t, ql+"eligDesc", 30) {
+			// the eligible SET is what counts: the list may come in any order
+			for i, j := 0, len(q.Eligible)-1; i < j; i, j = i+1, j-1 {
+				q.Eligible[i], q.Eligible[j] = q.Eligible[j], q.Eligible[i]
+			}
+		}
 		if !q.Filter && gen.Chance(t, ql+"openFilter", 35) {
 			q.OpenFilter = true
 		}
